@@ -4,3 +4,5 @@ import ZbossModel.Props.C14
 #print axioms Zboss.Host.C14_fifo
 #print axioms Zboss.Host.C14_nonblocking_free
 #print axioms Zboss.Host.C14_exclusive_any_schedule
+#print axioms Zboss.Host.C14_nonblocking_never_queues
+#print axioms Zboss.Host.C14_nonblocking_waits_only_for_the_link
